@@ -103,7 +103,7 @@ PLANS = {
                                     "mappyfile.validator.Validator.create_message", "mappyfile.cli.validate", "mappyfile.parser.Parser.load_includes", "mappyfile.parser.Parser.parse"),
              b=["b_positions"], canaries=["position_line", "message_key"],
              explanation="position records are built from the tokens' line/column (never rewritten by value callbacks), hoisted per keyword / per occurrence; error messages carry the position of the keyword or of the object's opener; Lark's line/column assumed, validated by the bounded seam"),
- "C09": dict(level="proof", pred=by("is_valid_for_version", "get_versioned_properties", "get_versioned_schema", "get_expanded_schema", "mappyfile.validator.Validator.validate", "mappyfile.cli.schema"),
+ "C09": dict(level="proof", pred=by("is_valid_for_version", "get_versioned_properties", "get_versioned_schema", "get_expanded_schema", "mappyfile.validator.Validator.validate", "mappyfile.cli.schema", "HistoryVersionedSchema"),
              e=["c09_tables"], b=["b_versions"], canaries=["version_lt", "cache_key"],
              explanation="range test, recursive pruning (loop contracts), cache discipline proved; E: the pruned schema of every type equals an independent ideal prune for one representative of every class of the version partition (covers every version)"),
  "C10": dict(level="proof", pred=by(TR + "expression", TR + "not_expression", TR + "comparison", TR + "and_test", TR + "or_test", TR + "add", TR + "sub", TR + "mul", TR + "div", TR + "power", TR + "neg",
